@@ -3,19 +3,24 @@ C16 — a program split into modules computes what its inlined form computes.
 Property theorems about the model in `JaqVerif/C16/{Load,Search,Inline}.lean`
 (helper lemmas: `Lemmas/C16Load.lean`, `Lemmas/C16Resolve.lean`).
 
-Not proved (kept as a comment; checked per generated graph on the real code by checks/c16.py):
+`run_modules_eq_run_inlined` (below) is proved against the inlined program in *closure form*
+(`C16/Lexical.lean`: one lexically scoped program, every directive replaced by the closures of
+the definitions it brings in).  Not proved (checked per generated graph on the real code and
+in the model by checks/c16.py):
 
-  theorem run_modules_eq_run_inlined (g : Graph S) (vv : VarVals) (dataOf …) :
-      acyclic g → compileErrors g = [] →
-      runGraph g vv = runGraph (singleModule (inline g dataOf)) { vv with imported := [] }
+  theorem run_inlined_text (g : Graph S) (vv : VarVals) (dataOf …) :
+      Acyclic g → names of `g` do not start with `__` →
+      runSingle g.globals vv.globals (inline g dataOf) = runLexical g vv
 
-  what is missing: a simulation between the module-indexed environments of `eval` and the
-  nested closures of the inlined term (C01's `EnvRel` extended by module entries).  The
-  look-up step of that simulation is `resolve_modules_eq_resolve_inlined_partial` below.
+  (the *text* `inline g` realises the closures by wrapper definitions `__wM_K` and aliases
+  `m__f`; what is missing is the freshness argument for these names), and the converse
+  direction of `run_modules_eq_run_inlined` for programs on which the modular evaluator reports
+  an undefined symbol (those do not compile in jaq).
 -/
 import JaqVerif.Lemmas.C16Load
 import JaqVerif.Lemmas.C16Resolve
 import JaqVerif.Lemmas.C16Search
+import JaqVerif.Lemmas.C16Sim
 
 namespace Jaq.C16
 
@@ -297,5 +302,98 @@ theorem resolve_modules_eq_resolve_inlined_partial (mm : List (List Sig)) (inc :
 example : callIncluded [[⟨"f", 0⟩], [⟨"f", 0⟩, ⟨"g", 1⟩, ⟨"f", 0⟩], [⟨"g", 1⟩]] [0, 1, 2] "f" 0 = .found 1 2 := by decide
 example : lexical (broughtIn [[⟨"f", 0⟩], [⟨"f", 0⟩, ⟨"g", 1⟩, ⟨"f", 0⟩], [⟨"g", 1⟩]] [0, 1, 2]) "f" 0 = some (1, 2) := by
   decide
+
+/-! ## Whole programs -/
+
+/-- **The module system computes what the inlined program computes.**  For EVERY acyclic module
+    graph (any number of modules, diamonds, one module included and imported, name clashes,
+    data imports in any module, command-line variables) and every main program of the probe
+    language (calls, qualified calls, variables, `as`/`label`/`def` binders, `$`- and filter
+    parameters, calls from under binders, recursion): whenever the modular evaluator — per-module
+    definition tables, `included_mods` / `imported_mods` loops, `call_mod_id`, variables found
+    by module index among `imported_vars` and then `global_vars` — yields `v`, so does the
+    single lexically scoped program in which every `include`/`import` is replaced by the
+    definitions it brings in (`runLexical`: no module tables, innermost binding wins), with the
+    same fuel.  Since both are deterministic, whenever both yield a value it is the same. -/
+theorem run_modules_eq_run_inlined {S : Type} (g : Graph S) (vv : VarVals) (hac : Acyclic g) (v : V)
+    (h : runGraph g vv = .ok v) : runLexical g vv = .ok v := by
+  unfold runGraph at h
+  unfold runLexical
+  cases hl : g.mods.getLast? with
+  | none => simp [hl] at h
+  | some m =>
+    simp only [hl] at h ⊢
+    cases hm : m.body.main with
+    | none => simp [hm] at h
+    | some t =>
+      simp only [hm] at h ⊢
+      have hne : g.mods ≠ [] := by intro hn; simp [hn] at hl
+      have hcur : g.cur < g.mods.length := by
+        have := List.length_pos_iff.mpr hne
+        unfold Graph.cur; omega
+      exact eval_sim g vv hac evalFuel g.cur _ _ t v (REnv.base g.cur m.body.defs.length g.mods.length hcur) h
+
+/-- the same inside any scope: a term of module `mid` read under the same local binders in both
+    worlds (any fuel) -/
+theorem eval_modules_eq_eval_inlined {S : Type} (g : Graph S) (vv : VarVals) (hac : Acyclic g)
+    (fuel mid : Nat) (env : List Entry) (lenv : List LEntry) (hr : REnv g vv mid env lenv) (t : Tm) (v : V)
+    (h : eval g vv fuel mid env t = .ok v) : evalL fuel lenv t = .ok v :=
+  eval_sim g vv hac fuel mid env lenv t v hr h
+
+/-- what `load` hands to the compiler is acyclic, so the theorem above applies to every program
+    the loader accepts: for ALL readers, if `load` succeeds the modular run and the inlined run
+    agree -/
+theorem loaded_run_modules_eq_run_inlined {P S : Type} [BEq P] [LawfulBEq P] (read : Reader P S Body) (fuel : Nat)
+    (dflt : P) (prelude : Body) (mainPath : P) (mainSrc : Src S Body) (st : LState P S Body)
+    (deps : List (P × Module S Body)) (main : P × Module S Body)
+    (hload : load read fuel dflt prelude mainPath mainSrc = some (st, .ok deps main))
+    (globals : List String) (vv : VarVals) (v : V)
+    (h : runGraph (graphOf deps main globals) vv = .ok v) : runLexical (graphOf deps main globals) vv = .ok v := by
+  obtain ⟨_, h2, h3⟩ := loaded_graph_is_acyclic read fuel dflt prelude mainPath mainSrc st deps main hload
+  apply run_modules_eq_run_inlined _ vv _ v h
+  intro mid e he
+  unfold headerOf graphOf at he
+  simp only [List.map_append, List.map_cons, List.map_nil] at he
+  by_cases hm : mid < deps.length
+  · rw [List.getElem?_append_left (by simpa using hm), List.getElem?_map] at he
+    cases hd : deps[mid]? with
+    | none => simp [hd] at he
+    | some pm =>
+      simp only [hd, Option.map_some, Option.getD_some] at he
+      exact h2 mid pm.1 pm.2 hd e he
+  · rw [List.getElem?_append_right (by simpa using hm)] at he
+    by_cases hm2 : mid = deps.length
+    · subst hm2
+      simp only [List.length_map, Nat.sub_self, List.getElem?_cons_zero, Option.map_some, Option.getD_some] at he
+      exact h3 e he
+    · have hlen : (deps.map (·.2)).length = deps.length := by simp
+      rw [hlen] at he
+      have : mid - deps.length ≠ 0 := by omega
+      obtain ⟨j, hj⟩ := Nat.exists_eq_succ_of_ne_zero this
+      rw [hj] at he
+      simp at he
+
+/-- a concrete instance with everything in it: `b` has a data import `$d` and a definition `h`;
+    `a` includes `b`; main imports `a` as `m`, includes `b`, has its own data import `$d` and a
+    global `$g`; main calls `m::f` from under a binder `$d`: the hypotheses hold and the result
+    is `[[["B","G"],"local"],["B","G"],"G"]` -/
+def exampleGraph : Graph String :=
+  let b : Module String Body := ⟨[(0, none)], [("db", "$d")], ⟨[.mk "h" [] (.arr [.var "$d", .var "$g"])], none⟩⟩
+  let a : Module String Body := ⟨[(0, none), (1, none)], [], ⟨[.mk "f" [.var "$x"] (.arr [.call "h" [], .var "$x"])], none⟩⟩
+  let mn : Module String Body := ⟨[(0, none), (2, some "m"), (1, none)], [("dm", "$d")],
+    ⟨[], some (.bind (.tag "local") "$d" (.arr [.qcall "m" "f" [.var "$d"], .call "h" [], .var "$g"]))⟩⟩
+  { mods := [⟨[], [], ⟨[], none⟩⟩, b, a, mn], globals := ["$g"] }
+
+example : Acyclic exampleGraph ∧
+    runGraph exampleGraph { imported := [.tag "B", .tag "M"], globals := [.tag "G"] } =
+      .ok (.arr [.arr [.arr [.tag "B", .tag "G"], .tag "local"], .arr [.tag "B", .tag "G"], .tag "G"]) := by
+  refine ⟨?_, by rfl⟩
+  intro mid e he
+  match mid with
+  | 0 => simp [headerOf, exampleGraph] at he
+  | 1 => simp [headerOf, exampleGraph] at he; subst he; decide
+  | 2 => simp [headerOf, exampleGraph] at he; rcases he with rfl | rfl <;> decide
+  | 3 => simp [headerOf, exampleGraph] at he; rcases he with rfl | rfl | rfl <;> decide
+  | n + 4 => simp [headerOf, exampleGraph] at he
 
 end Jaq.C16
